@@ -229,6 +229,25 @@ def run(ctx):
             if (cls, g) in swept and f not in changes.get((cls, g), set()):
                 rep = next((l for sid, l in scripts if meta[sid][0] == cls and meta[sid][1] == f), None)
                 viol.append((True, '%s: setting %s changes the value returned by %s, a field whose own setter does not touch %s (neighbouring field disturbed)' % (cls, f, g, f), rep or []))
+    # struct-valued HEADER fields (e.g. the STP bridge identifiers): the getter must return what was set, and the value must
+    # survive the wire.  Option-backed typed values belong to C04; a field is header-backed when its getter works on a fresh object.
+    import c04 as R4
+    styped = [(c, f) for (c, f, k, b) in fields if k in (7, 9) and (c, f) in header_field and c not in R4.PREP and (c, f) not in R4.PREP]
+    ts = []
+    for (cls, fld) in styped:
+        for v in list(range(0, 16)) + [rng.randrange(1 << 64) for _ in range(16 if quick else 300)]:
+            ts.append(('z%d' % len(ts), ['new ' + cls, 'val 0 %s %d' % (fld, v), 'set 0 %s %d' % (fld, v), 'ser', 'rt ' + cls]))
+    th = C.run_harness('h_pkt', ts)
+    ctx.cov['evaluations'] += len(ts)
+    for sid, lines in ts:
+        lh = [l for l in th.get(sid, []) if not l.startswith('!~')]
+        cls, fld = lines[0].split()[1], lines[1].split()[2]
+        cat, bad = R4.typed_verdict(cls, fld, lines, lh, 1)
+        if cat is not None:
+            viol.append((True, bad, lines))
+        elif bad is None:
+            nontriv.add((cls, fld))
+    ctx.notes['struct_valued_header_fields'] = ['%s.%s' % x for x in styped]
     for k in sorted(trunc_seen):
         pass
     if trunc_seen:
